@@ -60,7 +60,7 @@ type C12Case struct {
 	Extra  []C12Query `json:"extra,omitempty"` // stress+second: leaf sets (resolved in their State) verified with remember by the second writer
 }
 
-var c12QueryKinds = []string{"roots", "stump", "prove", "verify", "leafpos", "leafposs", "gethash", "missing", "numleaves", "treerows", "write", "vpp"}
+var c12QueryKinds = []string{"roots", "stump", "prove", "verify", "leafpos", "leafposs", "gethash", "missing", "numleaves", "treerows", "write", "vpp", "writefail"}
 
 var c12Sites = map[string][]string{
 	"block":  {"Modify.afterRemove", "add.afterLeaf", "add.afterLeaf", "remove.afterSingle", "verify.beforeIngest", "ingest.afterProof"},
@@ -341,6 +341,13 @@ func evalQuery(m *u.MapPollard, q c12Resolved) (out string) {
 		return fmt.Sprint(m.GetTreeRows())
 	case "write":
 		return canonWrite(m)
+	case "writefail":
+		// Write to a sink that gives up after 40 bytes: the call fails, and whatever it started must be over
+		// when it returns (the next writer step runs right behind it)
+		if _, err := m.Write(&failingSink{limit: 40, partial: true}); err != nil {
+			return "ERR"
+		}
+		return "no error"
 	}
 	return "?"
 }
@@ -709,7 +716,7 @@ func runC12Stress(c C12Case, rq []c12Resolved, ans [][]string, calls []func(in *
 	// follows the sequential replica: readers then only ask storage-independent questions
 	storageFree := func(kind string) bool {
 		switch kind {
-		case "roots", "stump", "numleaves", "treerows", "verify":
+		case "roots", "stump", "numleaves", "treerows", "verify", "writefail":
 			return true
 		case "prove", "leafpos", "leafposs":
 			return c.Cfg.Full
